@@ -112,6 +112,7 @@ class DuplicatingGraph:
             return
 
         for child in tensor._view_children:
+            child.null_grad()
             self._record_mapping(
                 original=child,
                 placeholder=make_placeholder_tensor(
@@ -128,6 +129,11 @@ class DuplicatingGraph:
 
     def __init__(self, base: "Tensor"):
         self.mappings: Dict[int, Node] = {}
+
+        # The graph is about to be mutated: a gradient that the base or any of
+        # its views still holds describes the pre-mutation tensors; it is
+        # discarded (placeholders cannot be created for tensors with gradients)
+        base.null_grad()
 
         self._record_mapping(
             original=base, placeholder=make_placeholder_tensor(base, base=base.base)
